@@ -12,6 +12,8 @@
 import S2Proofs.C06Face.ExitPoint
 import S2Proofs.FloatErr2.Normal
 import S2Proofs.FloatErr3.Normalize
+import S2Proofs.PointCrossExact
+import S2Proofs.F64Sym2
 
 namespace S2Proofs.C06Face
 open S2 S2.Exact S2.CellM S2.IndexBuild S2Proofs.F64Order S2Proofs.FloatErr S2Proofs.C06Clip
@@ -273,13 +275,38 @@ theorem rv_ne_zero_of_toInt {x : F64} (h : toInt x ≠ 0) : rv x ≠ 0 := by
   have := toInt_eq_of_rv this
   rw [this]; decide
 
+/-- a float vector that Go's `==` identifies with the zero vector fails the threshold test of the repaired `PointCross` -/
+theorem not_ge_of_feq_zero (x : V3) (h : V3.feq x Crossing.zero3 = true) :
+    F64.ge x.norm2 EdgeNum.pointCrossMinNorm2 = false := by
+  have h8 : ∀ s1 s2 s3 : Bool,
+      F64.ge (V3.norm2 ⟨F64.zero s1, F64.zero s2, F64.zero s3⟩) EdgeNum.pointCrossMinNorm2 = false := by decide +kernel
+  unfold V3.feq Crossing.zero3 at h
+  have hfz : ∀ a : F64, F64.feq a (F64.zero false) = a.isZero := S2Proofs.C16K.feq_fz
+  simp only [Bool.and_eq_true, hfz] at h
+  obtain ⟨⟨h1, h2⟩, h3⟩ := h
+  have e : x = ⟨F64.zero x.x.signBit, F64.zero x.y.signBit, F64.zero x.z.signBit⟩ := by
+    cases x with
+    | mk a b c =>
+      simp only at h1 h2 h3 ⊢
+      rw [← S2Proofs.F64Sym2.eq_zero_of_isZero h1, ← S2Proofs.F64Sym2.eq_zero_of_isZero h2,
+        ← S2Proofs.F64Sym2.eq_zero_of_isZero h3]
+  rw [e]
+  exact h8 _ _ _
+
+/-- the repaired `PointCross` (D60) returns a usable normal in all three branches: the float value (finite, ≤ 5, not zero
+    because it passed the threshold), the rounded exact product (a normalised vector), or `Ortho` -/
 theorem pointCross_ok (a b : V3) (ha : UnitIsh a) (hb : UnitIsh b) : VOK (Crossing.pointCross a b) := by
-  unfold Crossing.pointCross
-  simp only
+  show VOK (EdgeNum.pointCross a b)
   obtain ⟨hf, _, _, _, b1, b2, b3⟩ := S2Proofs.FE2.rawX_spec a b ha.normLe hb.normLe
-  by_cases hz : V3.feq ((a.add b).cross (b.sub a)) Crossing.zero3 = true
-  · rw [if_pos hz]; exact ortho_vok a ha
-  · rw [if_neg hz]
+  by_cases hge : F64.ge (EdgeNum.pointCrossFloat a b).norm2 EdgeNum.pointCrossMinNorm2 = true
+  · rw [EdgeNum.pointCross_eq_float_of_ge a b hge]
+    have hz : ¬ V3.feq ((a.add b).cross (b.sub a)) Crossing.zero3 = true := by
+      intro hc
+      have := not_ge_of_feq_zero _ hc
+      unfold EdgeNum.pointCrossFloat at hge
+      rw [hge] at this
+      exact absurd this (by decide)
+    show VOK ((a.add b).cross (b.sub a))
     refine ⟨hf, b1, b2, b3, ?_⟩
     have hz3 : Fin3 Crossing.zero3 := ⟨fzero_fin, fzero_fin, fzero_fin⟩
     have hne : ofV3 ((a.add b).cross (b.sub a)) ≠ ofV3 Crossing.zero3 := fun hc =>
@@ -297,6 +324,22 @@ theorem pointCross_ok (a b : V3) (ha : UnitIsh a) (hb : UnitIsh b) : VOK (Crossi
       by_contra h; exact rv_ne_zero_of_toInt h hc.2.2
     unfold ofV3
     rw [t1, t2, t3]
+  · have hge' : F64.ge (EdgeNum.pointCrossFloat a b).norm2 EdgeNum.pointCrossMinNorm2 = false := by
+      cases hq : F64.ge (EdgeNum.pointCrossFloat a b).norm2 EdgeNum.pointCrossMinNorm2
+      · rfl
+      · exact absurd hq hge
+    rw [EdgeNum.pointCross_eq_exact_of_not_ge a b hge']
+    unfold EdgeNum.pointCrossExact
+    simp only
+    by_cases hz : ((EdgeNum.PV.ofV3 a).cross (EdgeNum.PV.ofV3 b)).isZero = true
+    · simp only [hz, Bool.not_true, Bool.false_eq_true, if_false]
+      exact ortho_vok a ha
+    · have hz' : ((EdgeNum.PV.ofV3 a).cross (EdgeNum.PV.ofV3 b)).isZero = false := by
+        cases hq : ((EdgeNum.PV.ofV3 a).cross (EdgeNum.PV.ofV3 b)).isZero
+        · rfl
+        · exact absurd hq hz
+      simp only [hz', Bool.not_false, if_true]
+      exact vok_of_normed (S2Proofs.PointCrossExact.toVector_normed _ _ hz')
 
 /-! ### the face frame and the scaling -/
 
